@@ -298,7 +298,7 @@ def opsXtce (op : String) (args : List SExp) : Option String :=
   | "cal", [c, x] => do
       let c ← parseCal c; let x ← x.val?
       pure (unsup c fun c =>
-        match calInput x with
+        match calInputFor c x with
         | .error e => showErr e
         | .ok q => match c.calibrate q with
           | .error e => showErr e
